@@ -31,13 +31,16 @@ RULE = ("per transport (mrp, companion, http, rtsp): every interleaving of 2 req
         "of the 2-request scripts without device-originated message, randomly elsewhere; "
         "scripted listeners raise on their k-th call or always (plain, coroutine, bound method; the witness too); "
         "a fifth transport `tunnel` = MRP over the AirPlay data stream (real DataStreamChannel.handle_received, "
-        "decode_protobufs, AirPlayMrpConnection) with 1..3 messages per data-stream frame; per transport 150 (thorough: "
+        "decode_protobufs, AirPlayMrpConnection) with 1..3 messages per data-stream frame; per transport 120 (thorough: "
         "1500) PAIRS of protocol objects alive at once with the same identifiers in flight, their random scripts "
         "interleaved at random, each judged on its own; "
         "the segmentation of the device's message stream varies per script on every transport: one message per "
         "read, as many consecutive messages as possible in one read, or 1..3 at random (HTTP/RTSP: the read "
         "concatenated byte-wise and additionally cut into segments of 1 / 7 / 40 bytes; MRP/Companion: consecutive "
         "hand-overs without a loop run; tunnel: one data-stream frame); 2-request HTTP/RTSP scripts run both ways; "
+        "MRP/tunnel: a request matched by message TYPE (generate_identifier=False, at most one per script) next to "
+        "identifier-matched ones, in every 2-request script without / with an identifier-carrying message of that "
+        "type (unknown identifier, each request's own identifier: late answers) and in 20% of the random sends; "
         "MRP listener sets vary per script (the unfiltered witness on every type plus up to 5 subscriptions: several "
         "listeners per type, the same function / bound method / coroutine subscribed repeatedly for one type with "
         "disjoint filters, the same callable on several types); plus 400 (thorough: 4000) bare MessageDispatcher cases "
@@ -48,8 +51,9 @@ RULE = ("per transport (mrp, companion, http, rtsp): every interleaving of 2 req
 ASSUMPTIONS = [
     "event granularity: the event loop runs until idle between two environment events (a response and a timer "
     "expiry never race inside one loop iteration)",
-    "MRP `type_N` pseudo identifiers and Companion auth frames (no identifier on the wire) are used one at a time "
-    "by protocol design; they are not generated",
+    "MRP `type_N` pseudo identifiers are used one at a time by protocol design: at most one type-matched request "
+    "per script, so its pseudo identifier is a fresh key like any other (spelt `no identifier + message type` on "
+    "the wire; other identifier-less messages use other types); Companion auth frames are not generated",
     "uuid4 identifiers are pairwise distinct (abstracted as a fresh counter per send in the model; two waiting "
     "requests sharing a wire identifier are reported by the oracle)",
     "MRP fixes no response type: a ProtocolMessage of any type carrying the identifier of a waiting request is its "
@@ -89,8 +93,8 @@ FAILED = 1000           # caller ids of requests whose transmission is made to r
 
 # ------------------------------------------------------------------------------ scripts
 
-MSG = ("r", "e", "o")   # response / event / other non-response (Companion `_t`; MRP: message type)
-SENDS = ("s", "S")      # new request object / re-send of the object of an earlier request
+MSG = ("r", "e", "o", "x")   # "x" (MRP): a message of the type used by TYPE-matched requests; response / event / other non-response (Companion `_t`; MRP: message type)
+SENDS = ("s", "S", "T")  # "T" (MRP): a request matched by message type (generate_identifier=False); new request object / re-send of the object of an earlier request
 
 
 def tok(e):
@@ -98,7 +102,7 @@ def tok(e):
         return "s"
     if e[0] == "S":
         return "S%d" % e[1]
-    if e[0] in ("b", "F"):
+    if e[0] in ("b", "F", "T"):
         return e[0]
     if e[0] == "t":
         return "t%d" % e[1]
@@ -108,7 +112,7 @@ def tok(e):
 def untok(t):
     if t == "s":
         return ("s",)
-    if t in ("b", "F"):
+    if t in ("b", "F", "T"):
         return (t,)
     if t[0] == "S":
         return ("S", int(t[1:]))
@@ -129,9 +133,12 @@ def parse(script):
 def model_tok(transport, e):
     """the model allocates a fresh key on every send whatever object is sent (that is what the
     pinned code does); MRP does not look at the message type"""
-    if e[0] == "S":
+    if e[0] in ("S", "T"):
+        # a type-matched request is the only one of its type at a time (protocol design), so its
+        # pseudo identifier `type_N` is a fresh key like any other; on the wire that key is spelt
+        # "no identifier, message type N"
         return "s"
-    if proto(transport) == "mrp" and e[0] in ("e", "o"):
+    if proto(transport) == "mrp" and e[0] in ("e", "o", "x"):
         return tok(("r", e[1], e[2]))
     return tok(e)
 
@@ -258,6 +265,8 @@ def uvariants(transport, base, n):
     out = [("r", k) for k in [None, base + 900] + own]
     if proto(transport) == "mrp":          # the type is not looked at: collisions only
         out += [("e", k) for k in own]
+        # identifier-carrying messages of the type a TYPE-matched request waits for
+        out += [("x", k) for k in [base + 900] + own]
     if transport == "companion":
         out += [("e", k) for k in [None, base + 900] + own] + [("o", k) for k in [None] + own[:1]]
     return out
@@ -308,6 +317,19 @@ def interleavings2(transport, base):
                         else:
                             evs.append((uv[0], uv[1], 100))
                     out.append(evs)
+                    if proto(transport) == "mrp" and not rs and (uv is None or uv[0] == "x"):
+                        # request 0 / request 1 matched by message TYPE instead of by identifier,
+                        # next to an identifier-matched one
+                        for which in (0, 1):
+                            seen = -1
+                            tv = []
+                            for e in evs:
+                                if e[0] == "s":
+                                    seen += 1
+                                    tv.append(("T",) if seen == which else e)
+                                else:
+                                    tv.append(e)
+                            out.append(tv)
                     if uv is None and not rs:
                         # a request whose transmission raises, at every position
                         for i in range(len(evs) + 1):
@@ -414,6 +436,8 @@ def random_script(transport, base, rng, nmax=5, maxlen=18):
         if c == "s":
             if keys and proto(transport) in ("mrp", "companion") and rng.chance(0.3):
                 evs.append(("S", rng.randrange(len(keys))))   # same request object again
+            elif proto(transport) == "mrp" and ("T",) not in evs and rng.chance(0.2):
+                evs.append(("T",))                            # matched by message type (one at a time)
             else:
                 evs.append(("s",))
             keys.append(nkey)
@@ -469,8 +493,8 @@ def is_perm_script(transport, base, evs):
 
 # ------------------------------------------------------------------------------ subscriptions
 
-DEFAULT_SUBS = "0.0.a,1.0.a,2.0.a,0.2.a,1.2.a,2.2.a"
-NTYPES = 3
+DEFAULT_SUBS = "0.0.a,1.0.a,2.0.a,3.0.a,0.2.a,1.2.a,2.2.a,3.2.a"
+NTYPES = 4
 # callables: 0 = plain function (the unfiltered witness), 1 = plain function, 2 = coroutine
 # function, 3 = bound method, 4 = bound coroutine method (a fresh bound-method object is made for
 # every listen_to call: equal and hash-equal, not identical)
@@ -646,11 +670,11 @@ class MrpAdapter:
             listener = None
 
             def send(self, message):
-                adapter.keys.append(message.identifier)
+                ident = adapter.wire_identifier(message)
                 if adapter.fail_next:
                     adapter.fail_next = 0
                     raise SendFault("connection.send raises")
-                adapter.obs.add("snt", adapter.nsent, adapter.mkey(message.identifier))
+                adapter.obs.add("snt", adapter.nsent, adapter.mkey(ident))
                 adapter.nsent += 1
 
             def close(self):
@@ -661,11 +685,12 @@ class MrpAdapter:
 
         self.prot = mp.MrpProtocol(self.make_connection(Conn), None, None, None)
         self.prot._state = mp.ProtocolState.READY
-        self.types = [protobuf.GENERIC_MESSAGE, protobuf.SET_STATE_MESSAGE, protobuf.VOLUME_DID_CHANGE_MESSAGE]
+        self.types = [protobuf.GENERIC_MESSAGE, protobuf.SET_STATE_MESSAGE, protobuf.VOLUME_DID_CHANGE_MESSAGE,
+                      protobuf.PLAYBACK_QUEUE_REQUEST_MESSAGE]
         self.subs = parse_subs(subs)
         self.subs_text = subs
         self.callables = Callables(lambda lid, message: adapter.obs.add(
-            "dsp", lid, adapter.mkey(message.identifier), adapter.payload(message)), split_subs(subs)[1])
+            "dsp", lid, adapter.message_key(message), adapter.payload(message)), split_subs(subs)[1])
         for ty, lid, f in self.subs:
             if f == "a":
                 self.prot.listen_to(self.types[ty], self.callables.get(lid))
@@ -681,9 +706,24 @@ class MrpAdapter:
 
     def payload(self, message):
         try:
-            return int(message.uniqueIdentifier)
+            return int(message.uniqueIdentifier.split("-")[0])
         except ValueError:
             return -1
+
+    def wire_identifier(self, message):
+        """what identifies this transmission: its identifier, or for a type-matched request the
+        pseudo identifier (spelt "no identifier + message type" on the wire)"""
+        ident = message.identifier or "TYPEKEY-%d-%d" % (message.type, len(self.keys))
+        self.keys.append(ident)
+        return ident
+
+    def message_key(self, message):
+        """the key a received message carries: its identifier, else (message of the type a
+        type-matched request was sent for) that request's pseudo identifier"""
+        if message.identifier:
+            return self.mkey(message.identifier)
+        mine = [k for k in self.keys if k.startswith("TYPEKEY-%d-" % message.type)]
+        return self.mkey(mine[-1]) if mine else None
 
     def mkey(self, identifier):
         if not identifier:
@@ -702,6 +742,12 @@ class MrpAdapter:
 
     async def request(self, r, timeout, obj=None):
         # obj = j: the very ProtocolMessage object of request j is sent again (as the heartbeat does)
+        if obj == "T":
+            # matched by message type, as the pairing / verify procedures do
+            msg = self.messages.create(self.types[3])
+            self.objects[r] = msg
+            got = await self.prot.send_and_receive(msg, generate_identifier=False, timeout=timeout)
+            return self.message_key(got), self.payload(got)
         msg = self.objects[obj] if obj is not None else self.messages.create(self.protobuf.GENERIC_MESSAGE)
         self.objects[r] = msg
         got = await self.prot.send_and_receive(msg, timeout=timeout)
@@ -712,9 +758,13 @@ class MrpAdapter:
 
     def build(self, kind, k, v):
         ti = MSG.index(kind)            # the message type; MRP matching does not look at it
+        ident = self.real(k)
+        if ident and ident.startswith("TYPEKEY-"):
+            ti, ident = 3, None         # the answer to a type-matched request carries no identifier
         self.type_of[v] = ti
-        msg = self.messages.create(self.types[ti], identifier=self.real(k))
-        msg.uniqueIdentifier = str(v)
+        msg = self.messages.create(self.types[ti], identifier=ident)
+        # real messages are never shorter than 40 bytes (decode_protobufs relies on that)
+        msg.uniqueIdentifier = "%d-%s" % (v, "0" * 36)
         return msg
 
     def recv(self, kind, k, v):
@@ -743,11 +793,11 @@ class TunnelAdapter(MrpAdapter):
                 return                      # replies to the device's own frames
             payload = channels.DataStreamChannel.decode_payload(message.payload)
             for pb in channels.DataStreamChannel.decode_protobufs(payload["params"]["data"]):
-                adapter.keys.append(pb.identifier)
+                ident = adapter.wire_identifier(pb)
                 if adapter.fail_next:
                     adapter.fail_next = 0
                     raise SendFault("data channel send raises")
-                adapter.obs.add("snt", adapter.nsent, adapter.mkey(pb.identifier))
+                adapter.obs.add("snt", adapter.nsent, adapter.mkey(ident))
                 adapter.nsent += 1
 
         self.channel.send = send
@@ -1072,7 +1122,7 @@ class Sess:
                 ad.fail_next = 1 + len(ftasks) % 2     # alternate the place of the fault
                 ftasks.append(asyncio.ensure_future(self.failing_caller(FAILED + len(ftasks))))
             elif e[0] in SENDS:
-                obj = e[1] if e[0] == "S" and e[1] < len(tasks) else None
+                obj = e[1] if e[0] == "S" and e[1] < len(tasks) else ("T" if e[0] == "T" else None)
                 tasks.append(asyncio.ensure_future(self.caller(len(tasks), obj)))
             elif e[0] == "b":
                 ad.burn()
@@ -1364,14 +1414,14 @@ def gen_cases(ctx):
             for evs in structured(transport, base, n, rng.fork("stagger", transport, n)):
                 cases.append((transport, base, evs, subs(evs)))
         r2 = rng.fork("random", transport)
-        for _ in range(ctx.scale(700, 8000)):
+        for _ in range(ctx.scale(600, 8000)):
             b = 0 if transport != "companion" else r2.randint(0, 65536)
             evs = random_script(transport, b, r2)
             cases.append((transport, b, evs, subs(evs)))
     # two protocol objects of one transport alive at once, same identifiers in flight on both
     for transport in TRANSPORTS:
         rp = rng.fork("pair", transport)
-        for _ in range(ctx.scale(150, 1500)):
+        for _ in range(ctx.scale(120, 1500)):
             b = 0 if transport != "companion" else rp.randint(0, 65536)
             ea = random_script(transport, b, rp, nmax=3, maxlen=8)
             eb = list(ea) if rp.chance(0.3) else random_script(transport, b, rp, nmax=3, maxlen=8)
